@@ -50,6 +50,14 @@ def gen_rank(rnd: random.Random, rank: int, p: Dict[str, Any]) -> Dict[str, Any]
         if cat in ("gpu_memcpy", "gpu_memset"):
             args.update({"bytes": 1024, "memory bandwidth (GB/s)": rnd.choice([0.5, 1.25, 12.0])})
         ev.append({"ph": "X", "cat": cat, "name": nm, "pid": 0, "tid": s, "ts": base + a, "dur": b - a, "args": args})
+    # GPU user annotations (no stream argument, as Kineto writes them) and host user annotations: only the
+    # annotation breakdown (C05, same aggregator) looks at them
+    for k in range(p.get("n_ann", 0)):
+        a = rnd.randint(0, T)
+        b = rnd.randint(a, T)
+        gpu = rnd.random() < 0.6
+        ev.append({"ph": "X", "cat": "gpu_user_annotation" if gpu else "user_annotation", "name": rnd.choice(p["ann_names"]),
+                   "pid": 0 if gpu else 4000 + rank, "tid": rnd.choice(streams) if gpu else 4000 + rank, "ts": base + a, "dur": b - a, "args": {}})
     if p.get("force_comm"):
         a = rnd.randint(0, T - 1)
         b = rnd.randint(a + 1, T)
@@ -64,7 +72,7 @@ def gen_rank(rnd: random.Random, rank: int, p: Dict[str, Any]) -> Dict[str, Any]
     return {"schemaVersion": 1, "distributedInfo": {"backend": "nccl", "rank": rank, "world_size": 4}, "traceEvents": ev}
 
 
-def gen_case(rnd: random.Random, tier: str, need_comm: bool = False) -> Dict[str, Any]:
+def gen_case(rnd: random.Random, tier: str, need_comm: bool = False, annotations: bool = False) -> Dict[str, Any]:
     n_ranks = rnd.choice([1, 1, 2, 3, 4])
     T = rnd.choice([6, 12, 40, 1000])
     base = rnd.choice([0, 1000, 10 ** 6, 1_700_000_000_000_000])     # ranks share one clock (aligned times stay small)
@@ -75,6 +83,8 @@ def gen_case(rnd: random.Random, tier: str, need_comm: bool = False) -> Dict[str
             w = [3, 3, 1, 1]
         p = {"T": T, "base": base + rnd.choice([0, 0, 3, 500]), "n_act": rnd.randint(1, rnd.choice([4, 14, 40])),
              "n_streams": rnd.choice([1, 2, 3, 4]), "p_zero": rnd.choice([0.0, 0.15, 0.3]), "type_weights": w,
-             "many_names": rnd.random() < 0.5, "shuffle": rnd.random() < 0.5, "force_comm": need_comm}
+             "many_names": rnd.random() < 0.5, "shuffle": rnd.random() < 0.5, "force_comm": need_comm,
+             "n_ann": rnd.choice([0, 0, 3, 12]) if annotations else 0,
+             "ann_names": rnd.sample(["fwd", "bwd", "opt", "nccl:all_reduce", "fwd_block_1", "fwd_block_2", "loss", "data"], rnd.randint(1, 8))}
         files[f"rank{r}.json"] = gen_rank(rnd, r, p)
     return {"files": files}
